@@ -29,8 +29,11 @@ def demo(cwd, src):
 
 def main():
     pid = sys.argv[1]
-    which = sys.argv[2:] or ["A", "B"]
-    wt, od = f"/tmp/seed_{pid}", f"/tmp/seed_{pid}_out"
+    rnd2 = "--round2" in sys.argv
+    rest = [a for a in sys.argv[2:] if not a.startswith("--")]
+    which = rest or (["C", "D"] if rnd2 else ["A", "B"])
+    pre = "seed2_" if rnd2 else "seed_"
+    wt, od = f"/tmp/{pre}{pid}", f"/tmp/{pre}{pid}_out"
     for X in which:
         patch = f"{od}/{X}.patch.diff"
         if not os.path.exists(patch):
